@@ -294,6 +294,16 @@ class RxnLP:
         self.lower_bound, self.upper_bound = 0.0, 0.0
 
     @property
+    def functional(self):
+        """cobra.Reaction.functional: the rule evaluated with the genes' flags (True without a rule)."""
+        model = getattr(self, "model", None)
+        rules, genes = getattr(model, "rules", None), getattr(model, "genes", None)
+        if model is None or rules is None or genes is None:
+            raise Unsupported("functional of a reaction outside a model with gene rules")
+        rule = rules.get(self.id)
+        return True if rule is None else bool(rule({g.id: g.functional for g in genes}))
+
+    @property
     def flux(self):
         if self.model is None or self.model.last_fluxes is None:
             raise Unsupported("flux before a solve")
@@ -559,6 +569,26 @@ class GeneLP:
             rule = self.model.rules.get(r.id)
             if rule is not None and not rule(flags):
                 r.knock_out()
+
+    @property
+    def reactions(self):
+        """The reactions whose rule mentions the gene (the rules are functions of the gene flags: a rule mentions a
+        gene when flipping that flag changes its value under some assignment of the others)."""
+        import itertools as _it
+
+        ids = [g.id for g in self.model.genes]
+        others = [g for g in ids if g != self.id]
+        out = []
+        for r in self.model.reactions:
+            rule = self.model.rules.get(r.id)
+            if rule is None:
+                continue
+            for bits in _it.product((True, False), repeat=len(others)):
+                flags = dict(zip(others, bits))
+                if rule(dict(flags, **{self.id: True})) != rule(dict(flags, **{self.id: False})):
+                    out.append(r)
+                    break
+        return frozenset(out)
 
     def __hash__(self):
         return hash(self.id)
